@@ -217,8 +217,13 @@ pub struct Parser<R> {
     error_index: usize,   // mark the error position
     nospace_bits: u64,    // SIMD marked nospace bitmap
     nospace_start: isize, // the start position of nospace_bits
+    depth: usize,         // the nesting depth of the container being parsed or skipped
     pub(crate) cfg: DeserializeCfg,
 }
+
+/// The deepest nesting of arrays and objects that is parsed or skipped; the parser recurses
+/// once per level.
+const MAX_NESTING_DEPTH: usize = 255;
 
 /// Records the parse status
 #[derive(Debug, Clone, Copy, PartialEq, Eq)]
@@ -246,12 +251,23 @@ where
             error_index: usize::MAX,
             nospace_bits: 0,
             nospace_start: -128,
+            depth: 0,
             cfg: DeserializeCfg::default(),
         }
     }
 
     pub fn offset(&self) -> usize {
         self.read.index()
+    }
+
+    /// One more level of nesting: refused beyond `MAX_NESTING_DEPTH`, every level costs stack.
+    #[inline(always)]
+    fn enter_container(&mut self) -> Result<()> {
+        if self.depth >= MAX_NESTING_DEPTH {
+            return perr!(self, RecursionLimitExceeded);
+        }
+        self.depth += 1;
+        Ok(())
     }
 
     pub(crate) fn with_config(mut self, cfg: DeserializeCfg) -> Self {
@@ -376,6 +392,17 @@ where
     where
         V: JsonVisitor<'de>,
     {
+        self.enter_container()?;
+        let ret = self.parse_array_impl(vis);
+        self.depth -= 1;
+        ret
+    }
+
+    #[inline(always)]
+    fn parse_array_impl<V>(&mut self, vis: &mut V) -> Result<()>
+    where
+        V: JsonVisitor<'de>,
+    {
         // parsing empty array
         check_visit!(self, vis.visit_array_start(0))?;
 
@@ -405,6 +432,17 @@ where
 
     #[inline(always)]
     fn parse_object<V>(&mut self, vis: &mut V) -> Result<()>
+    where
+        V: JsonVisitor<'de>,
+    {
+        self.enter_container()?;
+        let ret = self.parse_object_impl(vis);
+        self.depth -= 1;
+        ret
+    }
+
+    #[inline(always)]
+    fn parse_object_impl<V>(&mut self, vis: &mut V) -> Result<()>
     where
         V: JsonVisitor<'de>,
     {
@@ -709,6 +747,18 @@ where
         vis: &mut V,
         strbuf: &mut Vec<u8>,
     ) -> Result<()> {
+        self.enter_container()?;
+        let ret = self.parse_object2_impl(vis, strbuf);
+        self.depth -= 1;
+        ret
+    }
+
+    #[inline(always)]
+    fn parse_object2_impl<V: JsonVisitor<'de>>(
+        &mut self,
+        vis: &mut V,
+        strbuf: &mut Vec<u8>,
+    ) -> Result<()> {
         // parsing empty object
         let mut count: usize = 0;
         check_visit!(self, vis.visit_object_start(0))?;
@@ -736,6 +786,18 @@ where
     }
 
     pub(crate) fn parse_array2<V: JsonVisitor<'de>>(
+        &mut self,
+        visitor: &mut V,
+        strbuf: &mut Vec<u8>,
+    ) -> Result<()> {
+        self.enter_container()?;
+        let ret = self.parse_array2_impl(visitor, strbuf);
+        self.depth -= 1;
+        ret
+    }
+
+    #[inline(always)]
+    fn parse_array2_impl<V: JsonVisitor<'de>>(
         &mut self,
         visitor: &mut V,
         strbuf: &mut Vec<u8>,
@@ -1216,6 +1278,14 @@ where
 
     #[inline(always)]
     fn skip_object(&mut self) -> Result<()> {
+        self.enter_container()?;
+        let ret = self.skip_object_impl();
+        self.depth -= 1;
+        ret
+    }
+
+    #[inline(always)]
+    fn skip_object_impl(&mut self) -> Result<()> {
         match self.skip_space() {
             Some(b'}') => return Ok(()),
             Some(b'"') => {}
@@ -1242,6 +1312,14 @@ where
 
     #[inline(always)]
     fn skip_array(&mut self) -> Result<()> {
+        self.enter_container()?;
+        let ret = self.skip_array_impl();
+        self.depth -= 1;
+        ret
+    }
+
+    #[inline(always)]
+    fn skip_array_impl(&mut self) -> Result<()> {
         match self.skip_space_peek() {
             Some(b']') => {
                 self.read.eat(1);
